@@ -181,6 +181,13 @@ def run(ctx: Ctx) -> None:
             apps = [m for m in cfg.nodes if m.kind == "stmt" and isinstance(m.stmt, ast.Expr) and isinstance(m.stmt.value, ast.Call) and norm(m.stmt.value.func) == "params.append"]
             ok = False
             why = "param_idx is not derived from the length of the parameter list"
+            if kv is not None and isinstance(kv, ast.Name) and n is not None:
+                # a local holding the index: what matters is where its value was computed
+                rd16 = reaching_defs(cfg)
+                ds = list(rd16.get(n.id, {}).get(kv.id, ()))
+                if len(ds) == 1 and isinstance(cfg.nodes[ds[0]].stmt, ast.Assign) and len(cfg.nodes[ds[0]].stmt.targets) == 1:
+                    n = cfg.nodes[ds[0]]
+                    kv = n.stmt.value
             if kv is not None and len(apps) == 1 and n is not None:
                 before = cfg.dominates(apps[0], n) and not cfg.paths_avoiding(_loop_head(cfg, n), n, lambda x: x is apps[0]) if _loop_head(cfg, n) else cfg.dominates(apps[0], n)
                 expr = norm(kv)
